@@ -51,8 +51,8 @@ impl Property for C28 {
 
     fn runs(&self, tier: Tier) -> u64 {
         match tier {
-            Tier::Quick => 5 * 24,
-            Tier::Thorough => 5 * 2400,
+            Tier::Quick => 5 * 160,
+            Tier::Thorough => 5 * 12_000,
         }
     }
 
